@@ -12,8 +12,9 @@ from .ops import SymOps, Namespace, BindingError
 
 
 class Loop:
-    def __init__(self, invariant, variant=None, body_ensures=None):
+    def __init__(self, invariant, variant=None, body_ensures=None, on_exit=None):
         self.invariant, self.variant = invariant, variant
+        self.on_exit = on_exit               # lambda eng, st: st  - ghost update when the loop is left by exhaustion / false test
         self.body_ensures = body_ensures     # lambda S, a: clauses that hold at the end of EVERY iteration (continue included)
 
 
